@@ -684,6 +684,26 @@ func runC20(c *Ctx) {
 		emit(&qPath{root: '$', parts: []qPart{{kind: 'k', name: "e"}, {kind: 'f', group: &qGroup{ops: []qOp{{path: &qPath{root: '@', parts: []qPart{{kind: 'k', name: "x"}, {kind: 'c', name: "Greater", args: []qArg{{path: keyless("Add", "ab")}}}}}}}}}, {kind: 'c', name: "Count"}}}, nil, "named/keyless-at-paths")
 		emit(&qPath{root: '$', parts: []qPart{{kind: 'k', name: "a"}, {kind: 'c', name: "AnyOf", args: []qArg{{group: &qGroup{mode: "OR", ops: []qOp{{path: keyless("Greater", "de")}}}}}}}}, nil, "named/keyless-at-paths")
 	}
+	// `@` paths as ARGUMENTS at the top level (the value the function is applied to is not a collection being filtered): their chains stand
+	// on their own
+	{
+		atK := func(ks ...string) *qPath {
+			p := &qPath{root: '@'}
+			for _, k := range ks {
+				p.parts = append(p.parts, qPart{kind: 'k', name: k})
+			}
+			return p
+		}
+		dcall := func(key, fn string, arg qArg) *qPath {
+			return &qPath{root: '$', parts: []qPart{{kind: 'k', name: key}, {kind: 'c', name: fn, args: []qArg{arg}}}}
+		}
+		emit(dcall("a", "Equal", qArg{path: atK("b")}), nil, "named/at-paths-as-arguments")
+		emit(dcall("a", "Equal", qArg{path: atK("b", "c")}), nil, "named/at-paths-as-arguments")
+		emit(dcall("a", "Add", qArg{path: dcall("c", "Add", qArg{path: atK("b")})}), nil, "named/at-paths-as-arguments")
+		emit(dcall("a", "AnyOf", qArg{group: &qGroup{mode: "OR", ops: []qOp{{path: &qPath{root: '@', parts: []qPart{{kind: 'k', name: "b"}, {kind: 'c', name: "Equal", args: []qArg{{lit: "1"}}}}}}}}}), nil, "named/at-paths-as-arguments")
+		emit(&qPath{root: '$', parts: []qPart{{kind: 'k', name: "a"}, {kind: 'k', name: "d"}, {kind: 'c', name: "AnyOf", args: []qArg{{path: atK("e")}, {path: &qPath{root: '$', parts: []qPart{{kind: 'k', name: "c"}}}}}}}}, nil, "named/at-paths-as-arguments")
+		emit(nil, &qGroup{mode: "AND", ops: []qOp{{path: dcall("a", "Equal", qArg{path: atK("ab")})}, {path: dcall("b", "Greater", qArg{path: atK("a")})}}}, "named/at-paths-as-arguments")
+	}
 	// an element key and a root field of the SAME name in one condition (`$.orders[@.customer.Equal($.customer.id)]`): the `@` chain,
 	// prefixed by the chain of the collection, and the `$` chain live in different frames until the prefix is put in front
 	{
